@@ -9,7 +9,7 @@ from ..views import V
 from .. import corpus
 from .gen_access import hdr_field, level_geometry
 
-SERVES = {"C03", "C04", "C05", "C16", "C17", "C18", "C01", "C10"}
+SERVES = {"C03", "C04", "C05", "C16", "C17", "C18", "C19", "C01", "C10"}
 GH_N = [("unsigned long", "sbv_n")]
 SMALL = 1 << 16
 PB = ["kissat", "z3", "cvc5", "minisat"]
@@ -245,9 +245,49 @@ def scalar_type_contracts(cs, tier):
     return out
 
 
+def visit_contracts(cs, tier):
+    """visit_children of every level with a recording visitor that stops at a symbolic callback ordinal"""
+    sch, g, u = cs.schema, cs.gen, cs.unit
+    be = 1 if sch.big_endian else 0
+    out = []
+    by_ident = {li.ident: li for li in g.levels}
+    for idn in g.visit_roots:
+        li = by_ident[idn]
+        f = u.root("r_%s_visit" % idn)
+        vp, stop = f.p[0], f.p[1]
+        rec = f.params[0]["rec"]
+        vw = V(u, "(*%s)" % vp, rec)
+        pre, lstart_off, wbl, base = level_pre(sch, li, vp, rec, vw)
+        wm = Gen.wire_members(li)
+        dpre, dpos, endoff = dyn_chain(sch, li, vw, wm, lstart_off, wbl, fixed_bl=True)
+        total = len(wm)
+        post = [("callbacks-made", "RET.v.n == (%s <= %d ? %s : %dUL)" % (stop, total, stop, total)), ("stops-as-soon-as-a-callback-returns-true", "RET.stopped == (_Bool)(%s <= %d)" % (stop, total))]
+        KIND = {"field": 1, "group": 2, "data": 3}
+        for j, (i, m) in enumerate(wm):
+            mid = int((m.get("attrs") or m["level"].attrs)["id"]) if m["mkind"] != "group" else int(m["level"].attrs["id"])
+            guard = "%s > %d" % (stop, j)  # callback j happened
+            clause = "RET.v.kind[%d] == %d && RET.v.id[%d] == %d" % (j, KIND[m["mkind"]], j, mid)
+            if m["mkind"] == "field":
+                e = m["enc"]
+                A = base + m["offset"]
+                if e.kind in ("scalar", "enum", "set"):
+                    clause += " && RET.v.val[%d] == %s" % (j, load("%s + %d" % (vw.begin, A), PRIMS[e.prim]["size"], be))
+                else:
+                    clause += " && RET.v.ptr[%d] == %s + %d" % (j, vw.begin, A)
+            else:
+                off, size = dpos[i]
+                clause += " && RET.v.ptr[%d] == %s + %s" % (j, vw.begin, off)
+            post.append(("callback-%d-is-%s-in-schema-order-with-accessor-value" % (j, m["name"]), "SPEC_IMPLIES(%s, %s)" % (guard, clause)))
+        post.append(("complete-visit-leaves-cursor-at-end-of-view", "SPEC_IMPLIES(%s > %d, RET.cursor == %s + %s)" % (stop, total, vw.begin, endoff)))
+        out.append(Contract(f, "%s:%s::visit_children" % (cs.name, idn), props={"C19", "C04"}, ghosts=GH_N, mode="N", pre=pre + dpre + [ASSUME("%s >= 1" % stop)], post=post, assigns=[], backends=PB,
+                            note="recording visitor; stop ordinal symbolic: every stopping point at once"))
+    return out
+
+
 def contracts(tier):
     out = []
     for cs in corpus.schemas(tier):
+        out += visit_contracts(cs, tier)
         out += scalar_type_contracts(cs, tier)
         out += cursor_contracts(cs, tier)
         out += size_fill_contracts(cs, tier)
